@@ -1,15 +1,16 @@
 /-
   `minimum()` / `maximum()` of tree.go, one step of the walk on an inner node, as REGENERATED from the source
-  (`Gen/NodeOps.lean`: `minimum_step`, `maximum_step` – `children[0]`, `children[childrenLen-1]` on a `uint8`, the
+  (`Gen/WalkOps.lean`: `minimum_step`, `maximum_step` – `children[0]`, `children[childrenLen-1]` on a `uint8`, the
   upward / downward scans over the node48 index and the node256 slots): they are `Raw.minChild` / `Raw.maxChild`, the
   functions `Proofs/RawMinMax` proves to return the child of the first / last entry of the byte → child table and that
   `RT.minimum` / `RT.maximum` (C05Raw) are built from.  Kernel only.
 -/
-import ArtVerif.Proofs.GenNodeOps
+import ArtVerif.Gen.WalkOps
+import ArtVerif.Proofs.GoNodeBase
 import ArtVerif.Proofs.RawMinMax
 namespace ArtVerif
 namespace GenWalk
-open Gen Gen.NodeOps GoNode Raw Swar GenNodeOps
+open Gen Gen.WalkOps GoNode Raw Swar GenNodeOps
 variable {C : Type}
 
 /-! ### the four scans -/
